@@ -352,34 +352,38 @@ func ruleTextFilterTable(c *an.Ctx, o *an.O) {
 	if tokCell == nil || passes[1].tokCell != tokCell || passes[2].tokCell != tokCell {
 		o.FailAt(passes[0].goCall, "the three passes do not search for the same tokens")
 	} else {
-		var defStore, fnStore ssa.Instruction
+		// what is stored into the tokens variable: call results (directly, or through the phi of an
+		// inlined helper's returns)
+		var defCall, fnCall *ssa.Call
 		an.Instrs(fn, func(i ssa.Instruction) {
 			st, ok := i.(*ssa.Store)
 			if !ok || st.Addr != tokCell {
 				return
 			}
-			if call, ok := st.Val.(*ssa.Call); ok {
-				if call.Call.StaticCallee() != nil {
-					defStore = i
-				} else {
-					fnStore = i
+			for _, leaf := range phiLeaves(st.Val) {
+				if call, ok := leaf.(*ssa.Call); ok {
+					if call.Call.StaticCallee() != nil {
+						defCall = call
+					} else {
+						fnCall = call
+					}
 				}
 			}
 		})
-		if defStore == nil {
+		if defCall == nil {
 			o.FailAt(passes[0].goCall, "the default search tokens are never computed: with no tokens every element passes the default filter")
 		} else {
 			sc := hasText
 			sc.typeNil = true
-			if _, r := run(sc); !r[defStore.Block()] {
-				o.FailAt(defStore, "without a filter type the default search tokens are not used")
+			if _, r := run(sc); !r[defCall.Block()] {
+				o.FailAt(defCall, "without a filter type the default search tokens are not used")
 			}
 		}
-		if fnStore != nil {
+		if fnCall != nil {
 			sc := hasText
 			sc.tokFound = true
-			if _, r := run(sc); !r[fnStore.Block()] {
-				o.FailAt(fnStore, "a registered tokenizer for the requested filter type is not used")
+			if _, r := run(sc); !r[fnCall.Block()] {
+				o.FailAt(fnCall, "a registered tokenizer for the requested filter type is not used")
 			}
 		}
 	}
